@@ -103,6 +103,12 @@ def _root(c):
         finally:
             _rm(p)
         return fr
+    if c.get('root') == 'from_data_named':
+        # (sub-box) the documented direct route with an existing Waterfall AND a source name of its own
+        donor = stg.Frame(fchans=n, tchans=m, df=g['df'], dt=g['dt'], fch1=g['fch1'], ascending=c['asc'],
+                          data=data, t_start=T0, source_name='DONORSRC')
+        return stg.Frame.from_data(g['df'], g['dt'], g['fch1'], c['asc'], data + 1.0, waterfall=donor.get_waterfall(),
+                                   t_start=T0, source_name=ROOT_SRC)
     return stg.Frame(fchans=n, tchans=m, df=g['df'], dt=g['dt'], fch1=g['fch1'], ascending=c['asc'],
                      data=data, t_start=T0, source_name=ROOT_SRC)
 
@@ -742,7 +748,7 @@ def run(ctx):
                 for op in OPS:
                     cases.append(dict(base, prefix=[op], depth=depth))
     # (sub-box) roots loaded from 8- and 16-bit files
-    for rt in ('fil8', 'fil16'):
+    for rt in ('fil8', 'fil16', 'from_data_named'):
         for asc in (False, True):
             base = dict(geom=sorted(GEOMS)[0], asc=asc, tchans=SIZES[0][0], fchans=SIZES[0][1], seed=ctx.seed, tier=ctx.tier, root=rt)
             cases.append(dict(base, prefix=[], depth=0))
